@@ -2,12 +2,13 @@ import Model
 import Mathlib.Analysis.SpecialFunctions.Trigonometric.Complex
 import Mathlib.Analysis.SpecialFunctions.Log.Basic
 import Mathlib.Analysis.SpecialFunctions.Sqrt
+import Mathlib.Analysis.SpecialFunctions.Pow.Real
 import Mathlib.Tactic
 
 /-! `ℝ` instances of the scalar classes, and the bridge lemmas from the model's own
 combinators (`sumTo`, `powN`, `tab`, `dec`, `absS`) to Mathlib notions. -/
 
-noncomputable instance : Transc ℝ := ⟨Real.exp, Real.log, Real.sin, Real.cos, Real.sqrt, Real.pi⟩
+noncomputable instance : Transc ℝ := ⟨Real.exp, Real.log, Real.sin, Real.cos, Real.sqrt, Real.pi, (2:ℝ) ^ ((1:ℝ)/6)⟩
 noncomputable instance : Lit ℝ := ⟨fun n => (n : ℝ)⟩
 
 @[simp] theorem Transc_exp (x : ℝ) : Transc.exp x = Real.exp x := rfl
@@ -15,6 +16,7 @@ noncomputable instance : Lit ℝ := ⟨fun n => (n : ℝ)⟩
 @[simp] theorem Transc_sin (x : ℝ) : Transc.sin x = Real.sin x := rfl
 @[simp] theorem Transc_cos (x : ℝ) : Transc.cos x = Real.cos x := rfl
 @[simp] theorem Transc_sqrt (x : ℝ) : Transc.sqrt x = Real.sqrt x := rfl
+@[simp] theorem Transc_root6two : (Transc.root6two : ℝ) = (2:ℝ) ^ ((1:ℝ)/6) := rfl
 @[simp] theorem Transc_pi : (Transc.pi : ℝ) = Real.pi := rfl
 @[simp] theorem Lit_ofNat (n : ℕ) : (Lit.ofNat n : ℝ) = (n : ℝ) := rfl
 
